@@ -247,6 +247,13 @@ def _project_variants(env, rnd, par, fn, tag):
 
 def oracle(ctx, search):
     env = F.setup(ctx)
+    try:
+        return _oracle(ctx, search, env)
+    finally:
+        shutil.rmtree(env.ex, ignore_errors=True)      # the scratch tree (generated projects, parameter folders) does not stay behind
+
+
+def _oracle(ctx, search, env):
     rnd = random.Random(ctx.seed * 19 + 11)
     par = os.path.join(env.ex, "parameter")
     fails = []
